@@ -558,6 +558,122 @@ def translate_spec_tables(cond_src, path_src, cast_src):
 
 
 # ------------------------------------------------------------------------------------
+# inventory of write sites (stores through attributes / subscripts, mutating method calls)
+
+MUTATORS = {"pop", "append", "extend", "insert", "remove", "clear", "update", "setdefault", "sort", "reverse",
+            "popitem", "add", "discard"}
+FRESH_CALLS = {"dict", "list", "set", "tuple", "sorted", "zip", "range", "enumerate", "str", "int", "float", "bool"}
+
+
+def fresh_expr(e):
+    """Does the expression evaluate to a new object nobody else holds?"""
+    if isinstance(e, (ast.List, ast.Dict, ast.Set, ast.Tuple, ast.ListComp, ast.DictComp, ast.SetComp, ast.JoinedStr, ast.Constant)):
+        return True
+    if isinstance(e, ast.Call):
+        f = e.func
+        if isinstance(f, ast.Name) and (f.id in FRESH_CALLS or f.id[:1].isupper()):
+            return True
+        if isinstance(f, ast.Attribute) and isinstance(f.value, ast.Name) and f.value.id == "copy" and f.attr in ("deepcopy", "copy"):
+            return True
+        if isinstance(f, ast.Attribute) and f.attr[:1].isupper():
+            return True
+    return False
+
+
+def function_sites(qual, fn):
+    params = {a.arg for a in fn.args.args + fn.args.kwonlyargs + fn.args.posonlyargs}
+    if fn.args.vararg:
+        params.add(fn.args.vararg.arg)
+    if fn.args.kwarg:
+        params.add(fn.args.kwarg.arg)
+    binds = {}      # local name -> list of "fresh?" for every binding
+    for n in ast.walk(fn):
+        if isinstance(n, ast.Assign):
+            for t in n.targets:
+                if isinstance(t, ast.Name):
+                    binds.setdefault(t.id, []).append(fresh_expr(n.value))
+                elif isinstance(t, (ast.Tuple, ast.List)):
+                    for x in ast.walk(t):
+                        if isinstance(x, ast.Name):
+                            binds.setdefault(x.id, []).append(False)
+        elif isinstance(n, (ast.For, ast.comprehension)):
+            for x in ast.walk(n.target):
+                if isinstance(x, ast.Name):
+                    binds.setdefault(x.id, []).append(False)
+        elif isinstance(n, (ast.With,)):
+            for it in n.items:
+                if it.optional_vars is not None:
+                    for x in ast.walk(it.optional_vars):
+                        if isinstance(x, ast.Name):
+                            binds.setdefault(x.id, []).append(False)
+        elif isinstance(n, ast.AugAssign) and isinstance(n.target, ast.Name):
+            binds.setdefault(n.target.id, []).append(isinstance(n.value, (ast.Constant, ast.JoinedStr, ast.BinOp)))
+        elif isinstance(n, ast.NamedExpr):
+            binds.setdefault(n.target.id, []).append(fresh_expr(n.value))
+
+    def base(e):
+        while isinstance(e, (ast.Attribute, ast.Subscript)):
+            e = e.value
+        return e
+
+    def is_fresh_local(e):
+        b = base(e)
+        if not isinstance(b, ast.Name):
+            return False
+        if b is not e and not (isinstance(e, (ast.Attribute, ast.Subscript)) and e.value is b):
+            return False       # a store two levels below a fresh local may still reach shared objects
+        return b.id not in params and b.id in binds and all(binds[b.id])
+
+    out = []
+
+    def record(kind, target):
+        b = base(target)
+        if isinstance(b, ast.Name) and b.id == "self" and fn.name in ("__init__", "__new__") \
+                and isinstance(target, ast.Attribute) and target.value is b:
+            return            # initialisation of the object under construction
+        if is_fresh_local(target):
+            return
+        out.append((qual, kind, ast.unparse(target)))
+
+    for n in ast.walk(fn):
+        if isinstance(n, (ast.Assign, ast.AnnAssign, ast.AugAssign)):
+            targets = n.targets if isinstance(n, ast.Assign) else [n.target]
+            for t in targets:
+                for x in ([t] if not isinstance(t, (ast.Tuple, ast.List)) else list(ast.walk(t))):
+                    if isinstance(x, ast.Attribute):
+                        record("store-attr", x)
+                    elif isinstance(x, ast.Subscript):
+                        record("store-item", x)
+        elif isinstance(n, ast.Delete):
+            for t in n.targets:
+                if isinstance(t, (ast.Attribute, ast.Subscript)):
+                    record("delete", t)
+        elif isinstance(n, ast.Call) and isinstance(n.func, ast.Attribute) and n.func.attr in MUTATORS:
+            if is_fresh_local(n.func.value) or (isinstance(n.func.value, ast.Name) and n.func.value.id not in params
+                                                  and n.func.value.id in binds and all(binds[n.func.value.id])):
+                continue
+            out.append((qual, "call-" + n.func.attr, ast.unparse(n.func.value)))
+    return out
+
+
+def translate_sites(files):
+    rows = []
+    for rel in files:
+        tree = ast.parse(read(rel))
+        mod = os.path.basename(rel)[:-3]
+        for n in tree.body:
+            if isinstance(n, ast.FunctionDef):
+                rows += function_sites(f"{mod}.{n.name}", n)
+            elif isinstance(n, ast.ClassDef):
+                for m in n.body:
+                    if isinstance(m, ast.FunctionDef):
+                        rows += function_sites(f"{mod}.{n.name}.{m.name}", m)
+    rows.sort()
+    body = ";\n".join(f"  ({qs(a)}, {qs(b)}, {qs(c)})" for a, b, c in rows)
+    return "Definition write_sites : list (string * string * string) := [\n" + body + "\n].\n"
+
+
+# ------------------------------------------------------------------------------------
 
 HEADER = """(* GENERATED by harness/translate.py from {src} -- do not edit *)
 From Coq Require Import ZArith NArith List Bool String.
@@ -608,6 +724,14 @@ def main():
         "From Valida Require Import Py Lang Defs.", "From Valida Require Import Py Lang Defs Cast SpecDefs.") + st
     if write_if_changed(os.path.join(GEN_DIR, "SpecGen.v"), text):
         changed.append("SpecGen.v")
+    sites = translate_sites(["valida/conditions.py", "valida/data.py", "valida/datapath.py", "valida/rules.py",
+                             "valida/schema.py", "valida/utils.py", "valida/casting.py", "valida/callables.py"])
+    text = ("(* GENERATED by harness/translate.py: every statement of valida/*.py that writes through an attribute or a\n"
+            "   subscript, or calls a mutating method, on something other than a fresh local object or the object under\n"
+            "   construction in __init__ -- do not edit *)\nFrom Coq Require Import List String.\nImport ListNotations.\n"
+            "Local Open Scope string_scope.\n\n" + sites)
+    if write_if_changed(os.path.join(GEN_DIR, "SitesGen.v"), text):
+        changed.append("SitesGen.v")
     return changed
 
 
